@@ -368,11 +368,10 @@ def replay_and_audit(ctx, table, cases, objdir, label, audit_targets, per_tu=600
                 for ch in chunks(nof, per_tu):
                     work_items.append(("gcc", targ, ps, ch, pre_nofixed))
     results = vlib.pmap(work, work_items, workers=12)
-    audit_bad = []
+    audit_bad, tojudge = [], []
     for kind, targ, ps, plist, res in results:
         if kind == "cproc":
-            got, rejected = res
-            judge(ctx, plist, got, rejected, targ)
+            tojudge.append((plist, res, targ))
             stats["cproc_probes"] += len(plist)
         else:
             stats["audit_%s_probes" % kind] += len(plist)
@@ -385,6 +384,8 @@ def replay_and_audit(ctx, table, cases, objdir, label, audit_targets, per_tu=600
         kind, targ, p, msg = audit_bad[0]
         raise vlib.MachineryError("SPEC-AUDIT: %d probes where %s disagrees with CTypes, first: %s target %s `%s` (spec: %s) case %s: %s" % (
             len(audit_bad), kind, kind, targ, p.audit_line("G2"), p.case["exp"], json.dumps(p.case), msg))
+    for plist, (got, rejected), targ in tojudge:
+        judge(ctx, plist, got, rejected, targ)
     ctx.cov.setdefault("stats", {})[label] = dict(stats)
     return stats
 
@@ -427,7 +428,7 @@ def scalar(ctx, objdir):
     enum_probe(ctx, table, objdir)
     for c in cases[:: max(1, len(cases) // 4)][:4]:
         ctx.sample({"case": c, "rendered": expr_texts(c)[0]})
-    return table
+    return table, cases
 
 
 def enum_probe(ctx, table, objdir):
@@ -441,6 +442,25 @@ def enum_probe(ctx, table, objdir):
             want[nm] = int(k == base)
         lines.append("unsigned long ez_%s = sizeof(enum %s);" % (e, e))
     src = pre + "\n".join(lines) + "\n"
+    # a generic association that names an enumerated type by its tag (all other probes go through typedef names)
+    obs = {o["name"]: o for o in table["obs"]}
+    tagged = ", ".join("enum %s:%d" % (e, i + 1) for i, e in enumerate(table["g2"]) if e not in FIXED_ENUMS)
+    for targ in vlib.TARGETS:
+        for k in ("uint", "int", "long"):
+            gsrc = pre + "int gt = _Generic((a_%s), %s, default:0);\n" % (k, tagged)
+            rc, out, err = vlib.cproc(objdir, gsrc, targ)
+            ctx.count("generic-enum-tag|%s|%s" % (targ, k))
+            if rc != 0:
+                ctx.violation("generic:enum-tag-association:rejected", "cproc rejects `_Generic((a_%s), %s, default:0)`: %s" % (k, tagged, err.strip()[:120]),
+                              {"target": targ, "source": gsrc})
+            elif parse_data_values(out).get("gt") != obs[k]["g2"]:
+                ctx.violation("generic:enum-tag-association:value", "generic selection over enum tags = %s, required %s" % (parse_data_values(out).get("gt"), obs[k]["g2"]),
+                              {"target": targ, "source": gsrc})
+        p = subprocess.run(["clang", "--target=" + CLANG_T[targ], "-std=gnu2x", "-fsyntax-only", "-w", "-x", "c", "-"],
+                           input=pre + "".join("_Static_assert(_Generic((a_%s), %s, default:0) == %d, \"\");\n" % (k, tagged, obs[k]["g2"]) for k in ("uint", "int", "long")),
+                           stderr=subprocess.PIPE, text=True)
+        if p.returncode != 0:
+            raise vlib.MachineryError("SPEC-AUDIT: clang disagrees on the tagged generic selection: %s" % p.stderr[:300])
     for targ in vlib.TARGETS:
         rc, out, err = vlib.cproc(objdir, src, targ)
         if rc != 0:
@@ -578,9 +598,9 @@ def compat(ctx, objdir):
         # reject probes cost one process each: all redeclarations, a third of the pointer initialisations
         rejects = [x for n, x in enumerate(rejects) if x[0] == "redecl" or n % 3 == 0]
     stats = collections.Counter()
+    compat_audit(ctx, pre, batch, lines, rejects, stats)
     for targ in (vlib.TARGETS if not ctx.quick else ["x86_64-sysv", "aarch64"]):
         compat_target(ctx, objdir, targ, pre, batch, lines, rejects if targ == "x86_64-sysv" or not ctx.quick else rejects[::7], stats)
-    compat_audit(ctx, pre, batch, lines, rejects, stats)
     ctx.cov.setdefault("stats", {})["compat"] = dict(stats)
     ctx.validated(len(cases))
     ctx.sample({"compat pair": batch[len(batch) // 2][4], "probe": lines[len(batch) // 2], "required": batch[len(batch) // 2][2]})
@@ -880,11 +900,10 @@ def nested(ctx, objdir):
             return it, run_cproc_tu(objdir, targ, pre, pr)
         return it, audit_tu(kind, targ, pre if kind == "clang" else pre_nf, pr, ctx.scratch, "n%s_%s_%d" % (kind, targ, id(pr)),
                             "" if kind == "clang" else "nofixed")
-    bad = []
+    bad, tojudge = [], []
     for (kind, targ, pr), res in vlib.pmap(work, items, workers=12):
         if kind == "cproc":
-            got, rejected = res
-            nested_judge(ctx, pr, got, rejected, targ, stats)
+            tojudge.append((pr, res, targ))
             stats["cproc_probes"] += len(pr)
         else:
             stats["audit_%s_probes" % kind] += len(pr)
@@ -899,11 +918,93 @@ def nested(ctx, objdir):
         kind, targ, p, msg = bad[0]
         raise vlib.MachineryError("SPEC-AUDIT (nested): %d probes where a reference compiler disagrees with CTypes; first: %s %s `%s` (spec type %s): %s" % (
             len(bad), kind, targ, p.audit_line(), p.case["exp"], msg))
+    # only a spec that passed its audit is allowed to judge the implementation
+    for pr, (got, rejected), targ in tojudge:
+        nested_judge(ctx, pr, got, rejected, targ, stats)
     ctx.cov.setdefault("stats", {})["nested"] = dict(stats)
     ctx.validated(len(uniq))
     deep = [c for c in uniq if c["d"] >= 3]
     if deep:
         ctx.sample({"nested expression": deep[0]["e"], "required type": deep[0]["exp"], "target": deep[0]["targ"]})
+
+
+# ---- part 4 (flow B): H3 typing events of the hooks build validated by Trace_Types.tla ---------------------------
+H3_EVENTS = ('{"e":"prom"', '{"e":"ucv"', '{"e":"bin"', '{"e":"cond"')
+OWN_CPP = ["cpp", "-P", "-U__GNUC__", "-U__GNUC_MINOR__", "-D__STDC_NO_ATOMICS__", "-D__STDC_NO_COMPLEX__", "-U__SIZEOF_INT128__",
+           "-U__PIC__", "-D__extension__=", "-I", vlib.REPO]
+
+
+def traces(ctx, table, cases):
+    hooks = private_build(ctx, "hooks")
+    import glob
+    runs = []     # (label, target, source text or path)
+    tests = sorted(glob.glob(os.path.join(vlib.REPO, "test", "*.c")))
+    for targ in vlib.TARGETS:
+        for f in tests:
+            runs.append((os.path.basename(f), targ, None, f))
+    # spec-generated probes through the same hooks: every 23rd (quick) / 5th (thorough) enumerated case per target
+    step = 23 if ctx.quick else 5
+    bytarg = collections.defaultdict(list)
+    for c in cases:
+        if c["certain"] and c["form"] in ("bin", "cond", "un"):
+            bytarg[c["targ"]].append(c)
+    for targ, cl in sorted(bytarg.items()):
+        ps = ProbeSet(table)
+        pre = Prelude(table, True)
+        for c in cl[::step]:
+            for fld_t, fld_w in (("a", "aw"), ("b", "bw")):
+                if c.get(fld_w):
+                    pre.bf.add((c[fld_t], c[fld_w]))
+            for e in expr_texts(c):
+                ps.add_expr(c, e, size=False)
+        for n, ch in enumerate(chunks(ps.probes, 3000)):
+            runs.append(("probes%d" % n, targ, pre.text() + "\n".join(p.cproc_line() for p in ch) + "\n", None))
+    if not ctx.quick:
+        # cproc's own sources, preprocessed by the host cpp (the H3 sites see real-world operand types)
+        for f in sorted(glob.glob(os.path.join(vlib.REPO, "*.c"))):
+            p = subprocess.run(OWN_CPP + [f], stdout=subprocess.PIPE, stderr=subprocess.PIPE, text=True)
+            if p.returncode == 0:
+                runs.append(("own:" + os.path.basename(f), "x86_64-sysv", p.stdout, None))
+
+    def one(run):
+        label, targ, src, path = run
+        tr = ctx.path("h3_%d.trace" % (id(run) & 0xfffffff))
+        rc, out, err = vlib.cproc(hooks, src, targ, trace=tr, path=path, timeout=120)
+        ev = []
+        if os.path.exists(tr):
+            with open(tr) as f:
+                ev = [ln.strip() for ln in f if ln.startswith(H3_EVENTS)]
+            os.unlink(tr)
+        return label, targ, rc, ev
+    log, owners = [], []
+    nexec = 0
+    for label, targ, rc, ev in vlib.pmap(one, runs, workers=8):
+        if not ev:
+            continue
+        nexec += 1
+        log.append(json.dumps({"e": "Reset", "targ": targ}))
+        owners.append((label, targ))
+        for e in ev:
+            log.append(e)
+            owners.append((label, targ))
+    path = ctx.path("h3.ndjson")
+    with open(path, "w") as f:
+        f.write("\n".join(log) + "\n")
+    r = ctx.tlc("Trace_Types", "MC_Trace_Types.cfg", workers=1, env={"TRACE": path}, timeout=2400, heap="3g")
+    kinds = collections.Counter(json.loads(x)["e"] for x in log)
+    ctx.cov.setdefault("stats", {})["traces"] = {"executions": nexec, "events": len(log), "by_event": dict(kinds), "tlc_states": r.distinct}
+    for x in log:
+        ctx.count("ev|" + x, nontrivial='"Reset"' not in x)
+    if r.rc == 0:
+        ctx.validated(nexec)
+        return
+    if r.rc != 10:
+        raise vlib.MachineryError("Trace_Types: unexpected TLC result %s\n%s" % (r.rc, r.out[-2000:]))
+    stuck = min(max(r.distinct - 1, 0), len(log) - 1)       # events consumed = distinct states - 1
+    ev = json.loads(log[stuck])
+    ctx.violation("trace:%s:%s" % (ev.get("e"), ":".join(str(ev.get(k)) for k in ("op", "t", "t1", "t2", "lt", "rt", "w", "w1", "w2", "lw", "rw", "res") if k in ev)),
+                  "H3 event %d of %s (%s) is not a behaviour of TypeModel/CTypes: %s" % (stuck, owners[stuck][0], owners[stuck][1], log[stuck]),
+                  {"event": ev, "source": owners[stuck][0], "target": owners[stuck][1]})
 
 
 def private_build(ctx, flavour):
@@ -928,6 +1029,7 @@ def run(ctx):
                        "x magnitude class), floating and character constants; every operator of a group and several spellings are "
                        "rendered; evaluations = rendered expressions x targets, each observed by >= 2 data probes; non-trivial = all")
     objdir = private_build(ctx, "plain")
-    scalar(ctx, objdir)
+    table, cases = scalar(ctx, objdir)
     compat(ctx, objdir)
     nested(ctx, objdir)
+    traces(ctx, table, cases)
